@@ -27,6 +27,7 @@ CONSTANTS
   MaxSteps = %(steps)d
   WithPolicy = %(pol)s
   Warm = %(pol)s
+  Chaos = FALSE
 INVARIANTS
   Emit
 """
